@@ -17,6 +17,7 @@ Does not decide: numeric equality with the RFC formulas over histories.
 from __future__ import annotations
 
 import ast
+import itertools
 from typing import Any, Dict, List, Optional
 
 from engine.absint import Absint
@@ -237,3 +238,94 @@ def run(rep: Report, prog: Program, tier: str) -> None:
             rep.fail(mk_finding(prog, PROP, "C18-DLSR", run_rtcp, stmt,
                                 f"a last sender report {delay!r} s old gives dlsr = {got!r}" + ("" if in_range else ", which does not fit the 32-bit field: building the receiver report "
                                 "raises struct.error and the RTCP task dies") + ("" if exact else f"; expected {int(delay * 65536)}"), construct="dlsr range"))
+
+    # ---- C18-REF: StreamStatistics evaluated on packet sequences against an independent RFC 3550 reference (A.3 / A.8)
+    rep.rule("C18-REF", "receiver statistics equal the RFC 3550 reference on enumerated packet sequences", min_instances=10)
+    from types import SimpleNamespace as _NS2
+
+    from engine.peval import Evaluator as _Ev2, Raised as _R2
+    from engine.index import Unknown as _U2
+    from .objhook import make_hook as _mk
+    SSC = prog.cls("rtcrtpreceiver.StreamStatistics")
+    sadd = prog.func("rtcrtpreceiver.StreamStatistics.add")
+    CLOCK = 8000
+
+    def reference(arrivals):
+        """RFC 3550: extended highest sequence, expected, cumulative lost, per-interval fraction (A.3), jitter (A.8) for in-order
+        packets with a new timestamp (the sequences used here deliver out-of-order packets only as duplicates / late copies)."""
+        base = arrivals[0][0]
+        ext_max = base
+        received = 0
+        jitter = 0
+        last = None
+        out = []
+        for seq, ts, now in arrivals:
+            received += 1
+            ext = seq
+            while ext < ext_max - 32768:
+                ext += 65536
+            in_order = received == 1 or ext > ext_max
+            if in_order:
+                ext_max = max(ext_max, ext)
+                arrival = int(now * CLOCK)
+                if last is not None and ts != last[1]:
+                    d = abs((arrival - last[0]) - (ts - last[1]))
+                    jitter += d - ((jitter + 8) >> 4)
+                last = (arrival, ts)
+            expected = ext_max - base + 1
+            out.append((received, ext_max, expected, max(-(1 << 23), min(expected - received, (1 << 23) - 1)), jitter >> 4))
+        return out
+
+    def make_seq(kind: str, seq0: int, ts0: int = 0):
+        pk = []
+        if kind == "in order, steady":
+            pk = [(seq0 + i, 160 * i, 0.02 * i) for i in range(30)]
+        elif kind == "in order, jittered arrival":
+            pk = [(seq0 + i, 160 * i, 0.02 * i + (0.007 if i % 3 == 1 else 0.0) + (0.011 if i % 5 == 4 else 0.0)) for i in range(40)]
+        elif kind == "losses":
+            pk = [(seq0 + i, 160 * i, 0.02 * i) for i in range(40) if i % 7 not in (3, 4)]
+        elif kind == "duplicates and late copies":
+            base = [(seq0 + i, 160 * i, 0.02 * i) for i in range(24) if i not in (5, 11)]
+            pk = base[:10] + [(seq0 + 5, 800, 0.21)] + base[10:16] + [base[12]] + base[16:] + [(seq0 + 11, 1760, 0.49)]
+        elif kind == "several frames per timestamp":
+            pk = [(seq0 + i, 3000 * (i // 3), 0.011 * i) for i in range(30)]
+        return [(s % 65536, (t + ts0) % (1 << 32), n) for s, t, n in pk]
+    for kind, seq0 in itertools.product(("in order, steady", "in order, jittered arrival", "losses", "duplicates and late copies", "several frames per timestamp"), (7, 65500)):
+        arr = make_seq(kind, seq0, 0 if seq0 == 7 else (1 << 32) - 1000)
+        # the reference works on unwrapped numbers
+        unwrapped = []
+        prev = None
+        tprev = None
+        for s_, t_, n_ in arr:
+            u = s_ if prev is None else prev + ((s_ - prev + 32768) % 65536 - 32768)
+            tu = t_ if tprev is None else tprev + ((t_ - tprev + (1 << 31)) % (1 << 32) - (1 << 31))
+            unwrapped.append((u, tu, n_))
+            prev = max(prev, u) if prev is not None else u
+            tprev = tu
+        want = reference(unwrapped)
+        clock = [0.0]
+
+        def ex(call, ev, clock=clock):
+            if unparse(call.func) == "time.time":
+                return clock[0]
+            return NotImplemented
+        ohs = _mk(prog, ex)
+        evs = _Ev2(prog, prog.modules["rtcrtpreceiver"], None, {}, ohs)
+        label = f"{kind}, first sequence number {seq0}, first timestamp {arr[0][1]}"
+        try:
+            ss = ohs.instantiate(SSC, [], dict(clockrate=CLOCK), evs)
+            got = []
+            for s_, t_, n_ in arr:
+                clock[0] = n_
+                ohs.run_method(sadd, ss, [_NS2(sequence_number=s_, timestamp=t_)], {})
+                got.append((ss.packets_received, ss.cycles + ss.max_seq + (arr[0][0] - arr[0][0]), ohs.getattr(ss, "packets_expected"), ohs.getattr(ss, "packets_lost"), ohs.getattr(ss, "jitter")))
+        except (_R2, _U2) as ex_:
+            raise AnalysisError(f"C18-REF cannot evaluate [{label}]: {ex_}")
+        want2 = [(r, e % (1 << 48), x, l, j) for r, e, x, l, j in want]
+        bad = next((i for i, (g, w) in enumerate(zip(got, want2)) if g != w), None)
+        if bad is None:
+            rep.ok("C18-REF", label, sample=f"{len(got)} packets: received/extended max/expected/lost/jitter all equal; final {got[-1]}")
+        else:
+            names = ("packets received", "extended highest sequence", "packets expected", "cumulative lost", "jitter")
+            diff_ = [f"{names[k]} {got[bad][k]} (reference {want2[bad][k]})" for k in range(5) if got[bad][k] != want2[bad][k]]
+            rep.fail(mk_finding(prog, PROP, "C18-REF", sadd, sadd.node, f"[{label}] after packet #{bad}: " + ", ".join(diff_), construct="statistics: " + names[[k for k in range(5) if got[bad][k] != want2[bad][k]][0]]))
